@@ -18,10 +18,10 @@ import (
 	"github.com/ethereum/go-ethereum/beacon/engine"
 	"github.com/ethereum/go-ethereum/common"
 	"github.com/ethereum/go-ethereum/core/types/goattypes"
+	"github.com/goatnetwork/goat/verifsim/simrt"
 	bitcointypes "github.com/goatnetwork/goat/x/bitcoin/types"
 	goatmodtypes "github.com/goatnetwork/goat/x/goat/types"
 	relayertypes "github.com/goatnetwork/goat/x/relayer/types"
-	"github.com/goatnetwork/goat/verifsim/simrt"
 )
 
 var byzMutations = []string{"drop-first", "dup-first", "swap-first", "two-msgs", "second-block-msg", "with-relayer-msg", "other-author", "fee-recipient", "fork-parent",
